@@ -690,6 +690,7 @@ fn try_run_func(
             log!("run func: {:?}", &args);
         }
         let cr_list = scripting::run_lines(sh, &func_body, &args, capture);
+        let status = cr_list.last().map_or(0, |cr| cr.status);
         let mut stdout = String::new();
         let mut stderr = String::new();
         for cr in cr_list {
@@ -699,6 +700,7 @@ fn try_run_func(
             stderr.push(' ');
         }
         let mut cr = CommandResult::new();
+        cr.status = status;
         cr.stdout = stdout;
         cr.stderr = stderr;
         return Some(cr);
